@@ -7,7 +7,7 @@
    by invariant G2 (first conjunct of C17_watermark_complete, and C16_output_is_current_rows) the
    consolidated output is exactly the rows recorded as sent.  Executable oracles of the same clauses on an
    observed output: Model/TriggerSpec.v (c17_spec). *)
-From Octo Require Import GroupBy TriggerSpec TriggerProofs GroupByProofs TriggerSpecProofs ChangelogLemmas.
+From Octo Require Import GroupBy TriggerSpec TriggerProofs GroupByProofs TriggerSpecProofs TriggerSpecProofs2 TriggerSpecProofs3 ChangelogLemmas.
 
 (* COUNTING n alone, every delivered stream es of any length, every next record r: the step emits exactly
    the block of r's key — the retraction of what was sent for it (if anything), then its current row (if
@@ -101,17 +101,51 @@ Theorem C17_order :
 Proof. exact wm_step_order. Qed.
 Print Assumptions C17_order.
 
-(* ON WATERMARK, soundness, stated on the trigger (trigger() emits rows only for the keys Poll returns, so a
-   key beyond the watermark can only come from another trigger of the MultiTrigger): before end of stream
-   the watermark trigger returns only keys whose time component is at or below the last watermark received.
-   t_ok holds of every reachable trigger state (t_init_ok, t_key_ok, t_wm_ok, t_poll_ok).
-   PARTIAL in form: it is not restated on the emitted event list of the node; the executable oracle
-   spec_wm_sound (Model/TriggerSpec.v) checks that reading on the implementation's output. *)
-Theorem C17_watermark_sound_partial : forall idx tks wm ks s',
+(* ON WATERMARK, soundness, on the node's emitted list.  For every configuration, every delivered stream es
+   and every further record or watermark e (i.e. before end of stream): every row x the node emits while
+   handling e is a row of some key k (its values are a representation of k followed by the aggregate columns)
+   such that EITHER k's time component is at or below the last watermark received up to and including e
+   (W itself when e = WM W: by C17_order these rows precede WM W in the output), OR a COUNTING trigger's Poll
+   of this very step returned k.  So no row of a key beyond W is emitted before WM W is forwarded unless a
+   counting poll of the same step fired it (END OF STREAM returns nothing before the end). *)
+Theorem C17_watermark_sound :
+  forall (ST : Type) (rinit : ST) (radd : bool -> list value -> ST -> ST) (rout : ST -> list value)
+         (nk : nat) (kti : option nat) trigs es s o e s' o' x,
+  ctg_run_from ST rinit radd rout wless nk kti (ctg_init ST kti trigs) es = (s, o) ->
+  ctg_step ST rinit radd rout wless nk kti s e = (s', o') -> In (Rec x) o' ->
+  exists k, row_of_key x k /\
+    (fst (key_time (match kti with Some i => i | None => O end) k) <= last_wm (es ++ [e]) \/
+     exists n counts fire,
+       In (SCount n counts false fire)
+          (match e with Rec r => mt_key wless (keyf nk r) (st_trigs ST s) | WM w => mt_wm w (st_trigs ST s) end) /\
+       In k (fst (t_poll wless (SCount n counts false fire)))).
+Proof. exact watermark_sound. Qed.
+Print Assumptions C17_watermark_sound.
+
+(* The same at the trigger (formerly C17_watermark_sound_partial): before end of stream the watermark
+   trigger's Poll returns only keys whose time component is at or below the last watermark received.
+   t_ok holds of every reachable trigger state (C17_reachable_trigger_states_ok). *)
+Theorem C17_watermark_trigger_sound : forall idx tks wm ks s',
   t_ok (SWm idx tks false wm) -> t_poll wless (SWm idx tks false wm) = (ks, s') ->
   forall k, In k ks -> fst (key_time idx k) <= wm.
 Proof. exact wm_poll_sound. Qed.
-Print Assumptions C17_watermark_sound_partial.
+Print Assumptions C17_watermark_trigger_sound.
+
+(* No late rows (the group-by's clause of C18, outside C18's recorded class
+   group-by-time-keyed-group-fired-at-end-of-stream): for EVERY trigger configuration, if the delivered stream
+   is well-timed (watermarks non-decreasing, no record with a non-zero event time at or below a watermark
+   already seen) and the node groups by the event time (the key's time component idx < nk of every record is
+   the record's event time), then everything the node emits before the end-of-stream triggering is
+   well-timed too: the watermarks are forwarded in order and every row carries, as the code computes it,
+   min(current time, key time), which is zero or above every watermark forwarded before it. *)
+Theorem C17_no_late_rows :
+  forall (ST : Type) (rinit : ST) (radd : bool -> list value -> ST -> ST) (rout : ST -> list value)
+         (nk idx : nat), (idx < nk)%nat -> forall trigs es s o,
+  all_keyed nk idx es -> well_timed_from None es = true ->
+  ctg_run_from ST rinit radd rout wless nk (Some idx) (ctg_init ST (Some idx) trigs) es = (s, o) ->
+  well_timed_from None o = true.
+Proof. exact no_late_rows. Qed.
+Print Assumptions C17_no_late_rows.
 
 Theorem C17_reachable_trigger_states_ok : forall idx kd k w s o s',
   t_ok (t_init idx kd) /\ (t_ok s -> t_ok (t_key wless k s)) /\ (t_ok s -> t_ok (t_wm w s)) /\
